@@ -19,10 +19,11 @@ class C17(Prop):
             "injected: wrong length, out of bounds by one ulp and by a lot, NaN entry, negative / too large / "
             "non-integer index, a vector for a discrete space, an index for a box space, arbitrary Python objects; "
             "in-space actions exactly on the bounds; box spaces whose contracts have their own bounds (array low / high) with an "
-            "entry outside the bounds of its own contract but inside the loosest bounds of the vector. Non-trivial = a malformed action was injected (and became due), "
+            "entry outside the bounds of its own contract but inside the loosest bounds of the vector; in 30% of the cases an "
+            "earlier episode on the same environment is abandoned with decisions still queued. Non-trivial = a malformed action was injected (and became due), "
             "or an in-space action on a bound, or a cash entry in the action; distinct = distinct cases")
     rule = rule + es.CONTEXT_RULE
-    nontrivial_tags = {"malformed-due", "on-bound", "cash-entry", "nr-contracts"}
+    nontrivial_tags = {"malformed-due", "on-bound", "cash-entry", "nr-contracts", "second-episode", "per-contract-bounds"}
     assumptions = [
         "arbitrary Python objects as actions are sampled by the harness but are all `junk` to the model's action type",
     ]
@@ -61,6 +62,13 @@ class C17(Prop):
                 ops.append(self.malformed(rng, sp))
             else:
                 ops.append(self.wellformed(rng, sp))
+        if rng.random() < 0.3 and n >= 2:
+            # an earlier episode on the same environment, abandoned with decisions still waiting in the delay queue:
+            # the second episode starts from null decisions again
+            k = rng.randint(1, n)
+            first = [["reset", None, 0]] + [self.wellformed(rng, sp) for _ in range(k)]
+            ops = first + ops
+            case["_two_episodes"] = True
         case["ops"] = ops
         return case
 
@@ -157,7 +165,20 @@ class C17(Prop):
             r.tags.add("cash-entry")
         if not sp.get("asWeights", 1):
             r.tags.add("nr-contracts")
-        steps = [o for o in s.obs if o["op"][0] != "reset"]
+        episodes, cur = [], None
+        for o in s.obs:
+            if o["op"][0] == "reset":
+                cur = []
+                episodes.append(cur)
+            elif cur is not None:
+                cur.append(o)
+        if len(episodes) > 1:
+            r.tags.add("second-episode")
+        for steps in episodes:
+            self.judge_episode(r, sp, d, steps)
+        return r
+
+    def judge_episode(self, r, sp, d, steps):
         for i, o in enumerate(steps):
             due = None if i < d else steps[i - d]["op"]
             ok_due = self.in_space(sp, due)
